@@ -99,7 +99,7 @@ TRet == /\ IsEvent("ret")
            /\ t <= Len(scen) /\ ~req[t] /\ pc[t] = 1 /\ opi[t] > 1
            /\ Ops(t)[opi[t] - 1] = <<Ev.op, Ev.f>>
            /\ Ev.err = ""
-           /\ Ev.op = "Read" => ToSet(Ev.toks) = buf[t]
+           /\ Ev.op \in {"Read", "ReadP"} => ToSet(Ev.toks) = buf[t]
         /\ UNCHANGED <<vars, req, dev, rdev>>
 
 TFinal == /\ IsEvent("final")
